@@ -41,7 +41,7 @@ def r1(ctx, R):
             ok = not aliasing and ctor_ok and rname == ['G' if meth == 'restrict' else 'F']
             R.check(ok, f'{cn}.{meth} :: result is constructed through the data type of the argument and returned', w, 'X = type(arg)(...) | <datatype>(...); return X', {'definitions': [ast.unparse(s.value)[:50] for s in defs], 'returns': rname, 'aliasing': aliasing})
             # the argument itself is not written
-            hits = [h.target for h in P.hits if h.params()]
+            hits = [h.target for h in P.hits if h.params()] + [f'{n} op= ..' for st, n, tags in P.aug_alias if any(t[0] == 'param' for t in tags)]
             R.check(not hits, f'{cn}.{meth} :: the argument is not modified', w, 'no in-place write into the argument', hits)
             # the target grid: restriction allocates on the coarse problem, prolongation on the fine one
             init = [ast.unparse(s.value) for s in defs]
@@ -86,7 +86,7 @@ def r2(ctx, R):
             R.check(impl == expl, f'{cn}.{meth} :: the expl arm is the impl arm with the component renamed', w, impl, expl)
 
 
-@rule('C11', 'C11.R3', 'mesh_to_mesh: restriction applies Rspace and writes coarse shapes, prolongation applies Pspace and writes fine shapes', floor=2)
+@rule('C11', 'C11.R3', 'mesh_to_mesh: restriction applies Rspace and writes coarse shapes, prolongation applies Pspace and writes fine shapes', floor=4)
 def r3(ctx, R):
     repo = ctx.repo
     rel, cn = CLASSES[0]
@@ -98,6 +98,21 @@ def r3(ctx, R):
         dots = sorted({ast.unparse(c.func.value) for c in ast.walk(fn) if isinstance(c, ast.Call) and isinstance(c.func, ast.Attribute) and c.func.attr == 'dot'})
         resh = sorted({ast.unparse(c.args[0]) for c in ast.walk(fn) if isinstance(c, ast.Call) and isinstance(c.func, ast.Attribute) and c.func.attr == 'reshape' and c.args})
         R.check(dots == [mat] and resh == [f'self.{side}_prob.nvars'], f'{cn}.{meth} :: operator {mat}, result reshaped to the {side} grid', w, {'dot': [mat], 'reshape': [f'self.{side}_prob.nvars']}, {'dot': dots, 'reshape': resh})
+        helper = [f for f in ast.walk(fn) if isinstance(f, ast.FunctionDef) and f is not fn]
+        if len(helper) != 1:
+            raise AnalysisError(f'{w}: expected one nested helper applying the operator')
+        src_p, dst_p = [a.arg for a in helper[0].args.args]
+        if meth == 'prolong':
+            pass
+        pairs = []
+        for arm in ast.walk(helper[0]):
+            if isinstance(arm, ast.If) and 'shape' in ast.unparse(arm.test):
+                rd = [ast.unparse(x.slice) for st in arm.body for x in ast.walk(st) if isinstance(x, ast.Subscript) and ast.unparse(x.value) == src_p and isinstance(x.ctx, ast.Load)]
+                wr = [ast.unparse(x.slice) for st in arm.body for x in ast.walk(st) if isinstance(x, ast.Subscript) and ast.unparse(x.value) == dst_p and isinstance(x.ctx, ast.Store)]
+                pairs.append((ast.unparse(arm.test), rd, wr))
+        ok = len(pairs) == 2 and all(rd == wr and len(rd) == 1 for _, rd, wr in pairs) and {p[1][0] for p in pairs} == {'(..., i)', '(i, ...)'}
+        axis_ok = all(('[-1]' in t) == (rd == ['(..., i)']) for t, rd, wr in pairs)
+        R.check(ok and axis_ok, f'{cn}.{meth} :: ncomp problems: component i is read and written on the same axis the shape test found it on', w, 'shape[-1] == ncomp: x[..., i] -> y[..., i];  shape[0] == ncomp: x[i, ...] -> y[i, ...]', pairs)
 
 
 @rule('C11', 'C11.R4', 'mesh_to_mesh.__init__: R = c * P^T with c = 0.5 for interpolating restriction (1.0 for injection), in the 1-d and the n-d branch alike; odd orders rejected', floor=6)
@@ -159,7 +174,7 @@ def _isinstance_chain(stmt):
 @rule('C11', 'C11.R6', 'data-type dispatch: no arm of an isinstance chain is shadowed by an earlier arm testing one of its base classes; the chain ends in a raising else', floor=4)
 def r6(ctx, R):
     repo = ctx.repo
-    for rel, cn in CLASSES[:3]:
+    for rel, cn in CLASSES:
         ci = repo.cls(rel, cn)
         for meth in ('restrict', 'prolong'):
             fn = ci.methods[meth]
@@ -223,7 +238,7 @@ def r7(ctx, R):
     R.fn(w2)
     Nq = Normalizer(gq, inline_scalars=True)
     rets = [ast.unparse(s.value) for s in walk_no_nested(gq) if isinstance(s, ast.Return)]
-    body = [ast.unparse(s) for s in walk_no_nested(gq) if isinstance(s, (ast.Assign, ast.Return))]
+    body = [ast.unparse(s) for s in sorted((x for x in walk_no_nested(gq) if isinstance(x, (ast.Assign, ast.Return))), key=lambda x: x.lineno)]
     pars = [a.arg for a in gq.args.args]
     ok = pars == ['f_nodes', 'c_nodes'] and body in (['approx = LagrangeApproximation(c_nodes)', 'return approx.getInterpolationMatrix(f_nodes)'], ['return LagrangeApproximation(c_nodes).getInterpolationMatrix(f_nodes)'])
     R.check(ok, 'get_transfer_matrix_Q(f_nodes, c_nodes) :: Lagrange basis on the source nodes c_nodes, evaluated at the target nodes f_nodes', w2, 'LagrangeApproximation(c_nodes).getInterpolationMatrix(f_nodes)', body)
@@ -237,3 +252,89 @@ def r7(ctx, R):
         want_sp = ['restrict'] if meth == 'restrict' else ['prolong']
         R.fn(f'{rel}:BaseTransfer.{meth}')
         R.check(used == [mat] and sp_ == want_sp, f'BaseTransfer.{meth} :: node transfer with {mat}, space transfer with space_transfer.{want_sp[0]}', f'{rel}:BaseTransfer.{meth}', {'coll': [mat], 'space': want_sp}, {'coll': used, 'space': sp_})
+
+
+TH = 'pySDC/helpers/transfer_helper.py'
+NODES = ('cont_arr', 'padded_c_grid[nn]', 'padded_f_grid[nn]')
+
+
+def _basis_blocks(fn):
+    """every loop `for l in range(k): bary_pol.append(BarycentricInterpolator(nodes, roll(e, l)))` with the statements around it"""
+    out = []
+    for body_owner in ast.walk(fn):
+        for fld in ('body', 'orelse'):
+            body = getattr(body_owner, fld, None)
+            if not isinstance(body, list):
+                continue
+            for i, s in enumerate(body):
+                if isinstance(s, ast.For) and 'BarycentricInterpolator' in ast.unparse(s):
+                    if any(isinstance(x, ast.For) and x is not s and 'BarycentricInterpolator' in ast.unparse(x) for x in ast.walk(s)):
+                        continue
+                    out.append((body, i, s))
+    return out
+
+
+@rule('C11', 'C11.R8', 'transfer_helper: all copies of the Lagrange-basis block agree: k cardinal polynomials on the k selected neighbours, evaluated at the target point, written into the columns of those neighbours', floor=6)
+def r8(ctx, R):
+    repo = ctx.repo
+    for fname in ('restriction_matrix_1d', 'interpolation_matrix_1d'):
+        fn = repo.func(TH, fname)
+        blocks = _basis_blocks(fn)
+        for body, i, loop in blocks:
+            w = f'{TH}:{fname}'
+            R.fn(w)
+            where = f'{fname} line-block #{blocks.index((body, i, loop)) + 1}'
+            lp = ast.unparse(loop)
+            m = re.fullmatch(r'for (\w+) in range\(k\):\n    bary_pol\.append\(BarycentricInterpolator\((.+), np\.roll\(circulating_one, \1\)\)\)', lp)
+            nodes = m.group(2) if m else None
+            pre = [ast.unparse(s) for s in body[:i]]
+            post = [ast.unparse(s) for s in body[i + 1:i + 2]]
+            one = 'circulating_one = np.asarray([1.0] + [0.0] * (k - 1))' in pre
+            empty = 'bary_pol = []' in pre
+            store = bool(post) and post[0].replace("with np.errstate(divide='ignore'):\n    ", '') == 'M[i, nn] = np.asarray(list(map(lambda x: x(p), bary_pol)))'
+            ok = bool(m) and nodes in NODES and one and empty and store
+            R.check(ok, f'{where} :: cardinal polynomials e_l on the selected nodes, l = 0..k-1, evaluated at p into M[i, nn]', w, 'circulating_one = [1,0,..]; for l in range(k): BarycentricInterpolator(nodes, roll(one, l)); M[i, nn] = [pol(p)]', {'loop': lp[:160], 'nodes': nodes, 'unit vector': one, 'fresh list': empty, 'store': post[:1]})
+            # the nodes are the neighbours that receive the weights
+            if nodes == 'cont_arr':
+                src = [s for s in pre if s.startswith('cont_arr = continue_periodic_array(') or (s.startswith('if len(nn) > 0') and 'continue_periodic_array' in s)]
+                okn = any(re.search(r'continue_periodic_array\((coarse_grid|fine_grid), nn\)', s) for s in src)
+                R.check(okn, f'{where} :: periodic: the nodes are the periodic continuation of exactly the neighbours nn', w, 'cont_arr = continue_periodic_array(grid, nn)', src)
+    # cropping of the padding columns
+    for fname in ('restriction_matrix_1d', 'interpolation_matrix_1d'):
+        fn = repo.func(TH, fname)
+        crop = [ast.unparse(s) for s in ast.walk(fn) if isinstance(s, ast.If) and ast.unparse(s.test) == 'pad > 0']
+        R.check(crop == ['if pad > 0:\n    M = M[:, pad:-pad]'], f'{fname} :: the padding columns are removed symmetrically', f'{TH}:{fname}', 'if pad > 0: M = M[:, pad:-pad]', crop)
+
+
+@rule('C11', 'C11.R9', 'transfer_helper: neighbour selection takes the k NEAREST points (ascending distance, first k) and returns their indices in ascending order; callers ask for k = the order', floor=4)
+def r9(ctx, R):
+    repo = ctx.repo
+    for fname, dist in (('next_neighbors', 'np.abs(ps - p)'), ('next_neighbors_periodic', None)):
+        fn = repo.func(TH, fname)
+        w = f'{TH}:{fname}'
+        R.fn(w)
+        st = {ast.unparse(s.targets[0]): ast.unparse(s.value) for s in walk_no_nested(fn) if isinstance(s, ast.Assign) and len(s.targets) == 1}
+        ret = [ast.unparse(s.value) for s in walk_no_nested(fn) if isinstance(s, ast.Return)]
+        if 'value_index_sorted' not in st or 'distance_to_p' not in st or len(ret) != 1:
+            raise AnalysisError(f'{fname}: the (distance, index) sorting idiom is gone - re-confirm rule C11.R9 against the new implementation')
+        lam = lambda t: re.sub(r'lambda (\w+): \1\[', 'lambda s: s[', t).replace('[0:k]', '[:k]')
+        ok = lam(st.get('value_index_sorted')) == 'sorted(value_index, key=lambda s: s[0])' and [lam(r) for r in ret] == ['sorted(map(lambda s: s[1], value_index_sorted[:k]))']
+        app = [ast.unparse(c) for c in ast.walk(fn) if isinstance(c, ast.Call) and ast.unparse(c.func) == 'value_index.append']
+        ok = ok and app == ['value_index.append((d, i))']
+        zl = [ast.unparse(l.iter) for l in walk_no_nested(fn) if isinstance(l, ast.For)]
+        ok = ok and zl == ['zip(distance_to_p, range(distance_to_p.size), strict=True)']
+        R.check(ok, f'{fname} :: (distance, index) pairs sorted ascending by distance, first k, indices ascending', w, 'sorted(pairs, key=distance)[0:k] -> sorted indices', {'sort': st.get('value_index_sorted'), 'return': ret, 'pairs': app, 'loop': zl})
+        if dist:
+            R.check(st.get('distance_to_p') == dist, f'{fname} :: distance is |ps - p|', w, dist, st.get('distance_to_p'))
+        else:
+            d = st.get('distance_to_p', '')
+            okd = 'min([np.abs(tk + 1 - p_bar), np.abs(tk - p_bar), np.abs(tk - 1 - p_bar)])' in d and st.get('p_bar') == 'p - np.floor(p / 1.0) * 1.0'
+            R.check(okd, f'{fname} :: distance is the minimum over the periodic images -1, 0, +1 of the point reduced to [0,1)', w, 'min(|tk+1-p|, |tk-p|, |tk-1-p|)', d[:140])
+    calls = []
+    for fname in ('restriction_matrix_1d', 'interpolation_matrix_1d'):
+        fn = repo.func(TH, fname)
+        for c in ast.walk(fn):
+            if isinstance(c, ast.Call) and ast.unparse(c.func) in ('next_neighbors', 'next_neighbors_periodic'):
+                calls.append((fname, ast.unparse(c)))
+    want = {('restriction_matrix_1d', 'next_neighbors_periodic(p, fine_grid, k)'), ('restriction_matrix_1d', 'next_neighbors(p, padded_f_grid, k)'), ('interpolation_matrix_1d', 'next_neighbors_periodic(p, coarse_grid, k)'), ('interpolation_matrix_1d', 'next_neighbors(p, padded_c_grid, k)')}
+    R.check(set(calls) == want and len(calls) == 4, 'matrix builders :: k neighbours of the target point p in the SOURCE grid (padded when not periodic)', TH, sorted(want), sorted(calls))
